@@ -290,3 +290,39 @@ def r8(ctx: Ctx) -> None:
         ctx.report(refine.where, "cells-not-by-halving " + ",".join(sorted(makers)), "refine does not produce its cells by Rectangle.split() alone: the 2^levels cells of a refined "
                    "cell are then not the result of repeatedly halving the longer side (e.g. a 12x2 cell refined twice must give four 3x2 cells)", lineno=refine.node.lineno,
                    makers={k: sorted(set(v)) for k, v in makers.items()})
+
+
+@rule("C12", "R9.refine-while-needed", "GUARD",
+      "the refine-while-needed loop of the global floorplanner is driven by the decision procedure itself: in glbfloor every call of "
+      "refine(threshold) is dominated by must_be_refined(threshold) with the same threshold, and the loop is left early exactly "
+      "when that test fails (not by comparing cell counts, which the optimiser changes in between)", floor=2)
+def r9_refine_loop(ctx: Ctx) -> None:
+    from .common import GLB, facts_text
+    f = ctx.func(GLB, "glbfloor")
+    g = ctx.cfg(f)
+    cn = g.canon()
+    loops = [n for n in walk_own(f.node) if isinstance(n, ast.While)]
+    ctx.require(len(loops) >= 1, "glbfloor: iteration loop not found")
+    n_ref = n_br = 0
+    for n in g.stmt_nodes():
+        if n.kind != "stmt" or n.ast is None:
+            continue
+        calls = [c_ for c_ in ast.walk(n.ast) if isinstance(c_, ast.Call) and call_name(c_) == "refine" and isinstance(c_.func, ast.Attribute)]
+        for c_ in calls:
+            n_ref += 1
+            recv, args = cn.expr(c_.func.value), tuple(cn.expr(a) for a in c_.args)
+            need = ("c", ("a", recv, "must_be_refined"), args[:1], ())
+            facts = g.facts_at(n.id)
+            ctx.site(f.where, "refine(threshold) only after must_be_refined(threshold) on the same allocation", stmt=norm_stmt(n.ast)[:80], guarded=need in facts)
+            if need not in facts:
+                ctx.report(f.where, f"refine-unguarded {norm_stmt(n.ast)[:70]}", "glbfloor refines without having asked must_be_refined(threshold) for the same allocation and threshold",
+                           lineno=n.lineno, facts=facts_text(facts))
+        if isinstance(n.ast, ast.Break) and any(x is n.ast for x in ast.walk(loops[0])):
+            n_br += 1
+            facts = g.facts_at(n.id)
+            stop = [fa for fa in facts if fa[0] == "not" and fa[1][0] == "c" and fa[1][1][0] == "a" and fa[1][1][2] == "must_be_refined"]
+            ctx.site(f.where, "the loop is left early only when must_be_refined(threshold) is false", stop_test=len(stop))
+            if not stop:
+                ctx.report(f.where, f"exit-not-by-decision {norm_stmt(n.ast)}", "the refine-while-needed loop is not left on 'must_be_refined(threshold) is false': it can stop while "
+                           "the decision procedure still asks for refinement (or go on when it does not)", lineno=n.lineno, facts=facts_text(facts))
+    ctx.require(n_ref >= 1 and n_br >= 1, "glbfloor: refine call / loop exit not found")
